@@ -28,8 +28,9 @@ fn cell_from(length: f64, ratio: f64, angle: f64, family: &str) -> Cell2 {
 pub fn c14(tier: Tier) -> ! {
     let mut run = Run::new("C14", tier, "exploration");
     let lengths = [0.01, 0.5, 1., 3.7, 100.];
-    let ratios = [0.1, 0.34, 0.5, 0.73, 1.];
-    let angles = [PI / 6., 0.7, 1., 1.3, PI / 2., 2.0];
+    // (a document can carry a ratio above one and an angle next to, but not at, a right angle)
+    let ratios = [0.1, 0.34, 0.5, 0.73, 1., 1.5];
+    let angles = [PI / 6., 0.7, 1., 1.3, PI / 2. - 1e-3, PI / 2. - 9e-7, PI / 2. - 1e-9, PI / 2., PI / 2. + 9e-7, 2.0];
     let families = ["Monoclinic", "Orthorhombic", "Hexagonal", "Tetragonal"];
     let fr: Vec<f64> = vec![-1.5, -1.0, -0.5, -0.25, 0., 0.1, 0.5, 1.0, 1.5];
     let rots = [0., 0.3, PI / 2., PI, 4.1];
@@ -175,12 +176,79 @@ pub fn c14(tier: Tier) -> ! {
             run.fail(None, &w, c);
         }
     }
-    run.set("evaluations", evals);
+    // depth-2 histories: every ordered pair of 36 cells; everything cell B computes right after
+    // cell A computed the same things on the same thread is, bit for bit, what B computes on a
+    // thread of its own (those values are judged above)
+    let digest = |l: f64, r: f64, th: f64, fam: &str| -> Vec<u64> {
+        let cell = cell_from(l, r, th, fam);
+        let mut v = vec![cell.a(), cell.b(), cell.angle(), cell.area(), cell.center().x, cell.center().y];
+        for p in cell.get_corners().iter() {
+            v.push(p.x);
+            v.push(p.y);
+        }
+        let (x, y) = cell.to_cartesian(0.3, -0.7);
+        v.push(x);
+        v.push(y);
+        let p = cell.to_cartesian_point(Point2::new(-0.45, 0.2));
+        v.push(p.x);
+        v.push(p.y);
+        let t = Aff::rot_trans(0.3, [0.1, -0.2]).to_t2();
+        let ci = Aff::from_t2(&cell.to_cartesian_isometry(t));
+        v.extend_from_slice(&[ci.t[0], ci.t[1], ci.m[0][0], ci.m[0][1]]);
+        for i in cell.periodic_images(t, 2, false) {
+            let a = Aff::from_t2(&i);
+            v.push(a.t[0]);
+            v.push(a.t[1]);
+        }
+        v.into_iter().map(f64::to_bits).collect()
+    };
+    let mut hist_cells: Vec<(f64, f64, f64, &str)> = vec![];
+    for &l in [0.5, 3.7].iter() {
+        for &r in [0.34, 1., 1.5].iter() {
+            for &a in [0.7, PI / 2. - 9e-7, PI / 2., 2.0].iter() {
+                hist_cells.push((l, r, a, "Monoclinic"));
+            }
+            hist_cells.push((l, r, PI / 2., "Orthorhombic"));
+            hist_cells.push((l, r, PI / 2., "Tetragonal"));
+        }
+    }
+    let alone: Vec<Vec<u64>> = par_map(&hist_cells, |_, &(l, r, a, f)| std::thread::scope(|sc| sc.spawn(|| digest(l, r, a, f)).join().unwrap_or_default()));
+    let idx: Vec<usize> = (0..hist_cells.len()).collect();
+    let hres = par_map(&idx, |_, &i| {
+        let mut bad = vec![];
+        for j in 0..hist_cells.len() {
+            if i == j {
+                continue;
+            }
+            let (c1, c2) = (hist_cells[i], hist_cells[j]);
+            let got = std::thread::scope(|sc| {
+                sc.spawn(|| {
+                    let _ = digest(c1.0, c1.1, c1.2, c1.3);
+                    digest(c2.0, c2.1, c2.2, c2.3)
+                })
+                .join()
+                .unwrap_or_default()
+            });
+            if got != alone[j] {
+                bad.push((i, j));
+            }
+        }
+        bad
+    });
+    let mut hist_pairs = 0u64;
+    for bad in hres {
+        hist_pairs += hist_cells.len() as u64 - 1;
+        for (i, j) in bad.into_iter().take(1) {
+            run.fail(None, &format!("cell {:?} computes other lengths, corners, Cartesian points or images right after cell {:?} on the same thread than on a thread of its own", hist_cells[j], hist_cells[i]), json!({"engine": "cell-pair", "first": format!("{:?}", hist_cells[i]), "second": format!("{:?}", hist_cells[j])}));
+        }
+    }
+    run.set("ordered_cell_pairs_on_one_thread", hist_pairs);
+    run.set("evaluations", evals + hist_pairs);
     run.set("distinct_nontrivial", evals);
     run.set("cells", cells.len() as u64);
     run.set("images_compared", images);
     run.set("exhaustive", true);
-    run.set("rule", "complete product: 5 lengths x 5 ratios x 6 angles (incl. obtuse 2.0 via JSON) x 4 family tags; 9x9 fractional points in [-1.5,1.5]^2; 5 rotations (alternately mirrored); shells 0..4 everywhere and 5, 7, 12 on a sub-grid; zero flag both. Every evaluation is a distinct (cell, point, placement, shells, flag) tuple compared with xA+yB, the multiset {T+nA+mB} and |AxB|");
+    run.set("rule", "complete product: 5 lengths x 6 ratios (incl. 1.5) x 10 angles (incl. obtuse 2.0 and angles 1e-9 .. 1e-3 from a right angle) x 4 family tags; 9x9 fractional points in [-1.5,1.5]^2; 5 rotations (alternately mirrored); shells 0..4 everywhere and 5, 7, 12 on a sub-grid; zero flag both. Every evaluation is a distinct (cell, point, placement, shells, flag) tuple compared with xA+yB, the multiset {T+nA+mB} and |AxB|");
     run.sample(json!({"cell": {"length": 3.7, "ratio": 0.34, "angle": 1.3, "family": "Monoclinic"}, "frac": [-0.25, 0.5], "rot": 0.3, "shells": 3, "zero": false}));
     run.finish()
 }
@@ -310,6 +378,116 @@ pub fn c15(tier: Tier) -> ! {
             run.fail(None, &w, c);
         }
     }
+    // operation lists the crate does not ship (a document or a caller can supply any): a square
+    // group with a four-fold axis and a hexagonal one whose operations shear in lattice coordinates
+    let mut custom_checks = 0u64;
+    {
+        let op = |a: f64, b: f64, c: f64, d: f64, tx: f64, ty: f64| Aff { m: [[a, b], [c, d]], t: [tx, ty] };
+        let p4 = vec![op(1., 0., 0., 1., 0., 0.), op(0., -1., 1., 0., 0., 0.), op(-1., 0., 0., -1., 0., 0.), op(0., 1., -1., 0., 0., 0.)];
+        let p3m1 = vec![
+            op(1., 0., 0., 1., 0., 0.),
+            op(0., -1., 1., -1., 0., 0.),
+            op(-1., 1., -1., 0., 0., 0.),
+            op(0., -1., -1., 0., 0., 0.),
+            op(-1., 1., 0., 1., 0., 0.),
+            op(1., 0., 1., -1., 0., 0.),
+        ];
+        let pgx = vec![op(1., 0., 0., 1., 0., 0.), op(1., 0., 0., -1., 0.5, 0.25)];
+        for (gname, family, ops) in [("p4", "Tetragonal", &p4), ("p3m1", "Hexagonal", &p3m1), ("glide along x with an offset", "Orthorhombic", &pgx)].iter() {
+            let syms: Vec<Value> = ops.iter().map(|o| json!([o.m[0][0], o.m[1][0], 0., o.m[0][1], o.m[1][1], 0., o.t[0], o.t[1], 0.])).collect();
+            for &x in [0.11, -0.5, 0.5, 0.3, 0.].iter() {
+                for &y in [-0.23, 0.5, 0.17, 0.].iter() {
+                    for &phi in [0., 0.4, 2.2].iter() {
+                        let doc = json!({
+                            "wallpaper": {"name": gname, "family": family},
+                            "shape": shape,
+                            "cell": {"length": 3., "ratio": 1., "angle": if *family == "Hexagonal" { 2. * PI / 3. } else { PI / 2. }, "family": family},
+                            "occupied_sites": [{"wyckoff": {"letter": "a", "symmetries": syms, "num_rotations": 1, "mirror_primary": false, "mirror_secondary": false}, "x": x, "y": y, "angle": phi}],
+                        });
+                        let st = match AnyState::from_json(&doc) {
+                            Ok(s) => s,
+                            Err(e) => machinery_error(&e),
+                        };
+                        custom_checks += 1;
+                        let pl = st.relative();
+                        let rot = Aff::rot_trans(phi, [0., 0.]);
+                        let ok = pl.len() == ops.len()
+                            && pl.iter().zip(ops.iter()).all(|(a, o)| {
+                                let want = o.apply([x, y]);
+                                let lin = o.after(&rot);
+                                (0..2).all(|r| (0..2).all(|c| (a.m[r][c] - lin.m[r][c]).abs() <= 1e-15))
+                                    && dist_to_int(a.t[0] - want[0]) <= 1e-12
+                                    && dist_to_int(a.t[1] - want[1]) <= 1e-12
+                                    && a.t[0] >= -0.5 && a.t[0] < 0.5 && a.t[1] >= -0.5 && a.t[1] < 0.5
+                            });
+                        if !ok {
+                            run.fail(None, &format!("{}: site ({}, {}, {}) does not yield the operations applied to the site, wrapped into the cell", gname, x, y, phi), json!({"engine": "document", "state": doc}));
+                        }
+                    }
+                }
+            }
+        }
+    }
+    run.set("custom_operation_list_sites", custom_checks);
+    // depth-2 histories: every ordered pair of the seven groups (A, B) at bit-identical site
+    // coordinates; on a fresh thread A's placements are asked for first, then B's, which must be
+    // B's operations applied to the site
+    let mut pair_checks = 0u64;
+    {
+        let hist_coords: Vec<(f64, f64, f64)> = vec![(0.11, -0.23, 0.4), (-0.25, -0.25, 0.), (-0.375, -0.375, 0.), (0.5, -0.5, PI), (0., 0., 0.3), (0.25, 0.1, 2. * PI)];
+        let mut pj: Vec<(usize, usize)> = vec![];
+        for a in 0..GROUP_NAMES.len() {
+            for b in 0..GROUP_NAMES.len() {
+                if a != b {
+                    pj.push((a, b));
+                }
+            }
+        }
+        let res = par_map(&pj, |_, &(ia, ib)| {
+            let (ga, gb) = (GROUP_NAMES[ia], GROUP_NAMES[ib]);
+            let (ta, tb) = (StateTemplate::new(ga, &shape), StateTemplate::new(gb, &shape));
+            let ops = ita_ops(gb);
+            let mut bad: Vec<(String, Value)> = vec![];
+            let mut n = 0u64;
+            for &(x, y, phi) in hist_coords.iter() {
+                let p = Params { length: 2., ratio: 0.8, angle: PI / 2., x, y, phi };
+                let pl = std::thread::scope(|sc| {
+                    sc.spawn(|| {
+                        let _ = AnyState::from_json(&ta.with(&p)).unwrap().relative();
+                        AnyState::from_json(&tb.with(&p)).unwrap().relative()
+                    })
+                    .join()
+                    .unwrap_or_else(|_| machinery_error("a placement evaluation panicked"))
+                });
+                n += 1;
+                let rot = Aff::rot_trans(phi, [0., 0.]);
+                let mut used = vec![false; ops.len()];
+                let mut ok = pl.len() == ops.len();
+                for a in pl.iter() {
+                    let hit = ops.iter().enumerate().position(|(oi, o)| {
+                        let want = o.apply_frac([x, y]);
+                        let lin = o.as_aff().after(&rot);
+                        !used[oi] && (0..2).all(|r| (0..2).all(|c| (a.m[r][c] - lin.m[r][c]).abs() <= 1e-15)) && dist_to_int(a.t[0] - want[0]) <= 1e-12 && dist_to_int(a.t[1] - want[1]) <= 1e-12
+                    });
+                    match hit {
+                        Some(oi) => used[oi] = true,
+                        None => ok = false,
+                    }
+                }
+                if !ok && bad.len() < 2 {
+                    bad.push((format!("{}: the placements of site ({}, {}, {}) asked for right after those of the same site of {} on the same thread are not the group's operations applied to the site", gb, x, y, phi, ga), json!({"engine": "group-pair", "first": ga, "second": gb, "x": x, "y": y, "phi": phi})));
+                }
+            }
+            (n, bad)
+        });
+        for (n, bad) in res {
+            pair_checks += n;
+            for (w, c) in bad {
+                run.fail(None, &w, c);
+            }
+        }
+    }
+    run.set("ordered_group_pairs_sites_placed_on_one_thread", pair_checks);
     // a live object must give the placements a freshly read object with the same numbers gives,
     // after every single-parameter edit (what the optimiser does to it thousands of times)
     let mut live_checks = 0u64;
@@ -455,8 +633,39 @@ pub fn c13(tier: Tier) -> ! {
         }
     }
     run.sample(json!({"like": {"sigma": 1.4, "epsilon": 3., "cutoff": 2.5, "r": 2.5 * (1. - 2f64.powi(-52))}}));
+    // the energy of a pair does not depend on which pair was evaluated before it: every ordered
+    // pair (P, Q) of like-particle kinds, Q judged by the closed form right after P was evaluated
+    let mut kinds: Vec<(f64, f64, Option<f64>)> = vec![];
+    for &s in sigmas.iter() {
+        for &e in epss.iter() {
+            for &c in cutoffs.iter() {
+                kinds.push((s, e, c));
+            }
+        }
+    }
+    let mut after_other = 0u64;
+    for &(ps, pe, pc) in kinds.iter() {
+        for &(qs, qe, qc) in kinds.iter() {
+            if (ps, pe, pc) == (qs, qe, qc) {
+                continue;
+            }
+            for &f in [0.97, 1.2, 1.9].iter() {
+                let _ = lj(0., 0., ps, pe, pc).energy(&lj(1.1 * ps, 0., ps, pe, pc));
+                let r = f * qs;
+                let got = lj(0., 0., qs, qe, qc).energy(&lj(r, 0., qs, qe, qc));
+                let want = lj_closed_form(qs, qe, qc, r);
+                evals += 1;
+                after_other += 1;
+                if !((got - want).abs() <= 1e-9 * (1. + want.abs())) {
+                    run.fail(None, &format!("E={} but the shifted 12-6 law gives {} when the pair is evaluated right after a pair of another kind", got, want), json!({"engine": "after", "before": {"sigma": ps, "epsilon": pe, "cutoff": pc}, "pair": {"sigma": qs, "epsilon": qe, "cutoff": qc}, "r": r}));
+                }
+            }
+        }
+    }
+    run.set("like_pairs_evaluated_after_another_kind", after_other);
     // unlike particles: symmetry, invariance, zero beyond both cutoffs
     let mut unlike = 0u64;
+    let mut first_pass: Vec<(LJ2, LJ2, f64)> = vec![];
     for &s1 in sigmas.iter() {
         for &s2 in sigmas.iter() {
             for &e1 in epss.iter() {
@@ -474,6 +683,7 @@ pub fn c13(tier: Tier) -> ! {
                                 let b = lj(0.1 + r * dirs[k % 8][0], 0.2 + r * dirs[k % 8][1], s2, e2, c2);
                                 let eab = a.energy(&b);
                                 let eba = b.energy(&a);
+                                first_pass.push((a.clone(), b.clone(), eab));
                                 let case = json!({"a": {"sigma": s1, "epsilon": e1, "cutoff": c1}, "b": {"sigma": s2, "epsilon": e2, "cutoff": c2}, "r": r});
                                 if !((eab - eba).abs() <= 1e-9 * (1. + eab.abs().min(eba.abs()))) {
                                     run.fail(Some("unlike-particles-asymmetric"), &format!("unlike particles: E(a,b)={} but E(b,a)={}", eab, eba), case.clone());
@@ -497,6 +707,23 @@ pub fn c13(tier: Tier) -> ! {
         }
     }
     run.set("unlike_pair_evaluations", unlike);
+    // the same unlike pairs again in the opposite order, and strided: the value of a pair is the
+    // same whatever was evaluated before it
+    let mut second_pass = 0u64;
+    let n_first = first_pass.len();
+    let orders: Vec<Vec<usize>> = vec![(0..n_first).rev().collect(), (0..n_first).map(|k| (k * 7919) % n_first).collect()];
+    for (oi, order) in orders.iter().enumerate() {
+        for &k in order.iter() {
+            let (a, b, e1) = &first_pass[k];
+            let e2 = a.energy(b);
+            second_pass += 1;
+            evals += 1;
+            if e2.to_bits() != e1.to_bits() {
+                run.fail(None, &format!("unlike particles: E(a,b)={} in one order of evaluation and {} in another (order {})", e1, e2, oi), json!({"engine": "order", "a": {"sigma": a.sigma, "epsilon": a.epsilon, "cutoff": a.cutoff}, "b": {"sigma": b.sigma, "epsilon": b.epsilon, "cutoff": b.cutoff}, "index": k}));
+            }
+        }
+    }
+    run.set("unlike_pairs_re_evaluated_in_other_orders", second_pass);
     // molecules: energy = sum over particle pairs
     let mols: Vec<LJShape2> = vec![
         LJShape2::circle(),
@@ -676,7 +903,13 @@ pub fn c12(tier: Tier) -> ! {
         }
         rots.dedup();
         for (ri, rot) in rots.iter().enumerate() {
-            for &mirror in [false, true].iter() {
+            // 0: proper rotation; 1: mirror in the y axis, then rotated; 2, 3: the mirrors in the
+            // diagonals x = y and x = -y ("y, x" and "-y, -x": linear part with an exactly zero
+            // diagonal), then rotated
+            for mirror in 0..4u8 {
+                if mirror >= 2 && ri > tier.pick(1, 5) {
+                    continue;
+                }
                 jobs.push((name.clone(), spec.clone(), ri, *rot, mirror));
             }
         }
@@ -687,12 +920,20 @@ pub fn c12(tier: Tier) -> ! {
         Aff::mirror_x(),
         Aff::translation([10., -7.]),
         Aff::rot_trans(0.7, [10., -7.]).after(&Aff::mirror_x()),
+        Aff { m: [[0., 1.], [1., 0.]], t: [0.5, 0.] },
     ];
     let results = par_map(&jobs, |_, (name, spec, _ri, rot, mirror)| {
         let shape = to_test_shape(spec);
         let body = shape.body();
         let r = body.enclosing_radius();
-        let second_lin = if *mirror { Aff::rot_trans(*rot, [0., 0.]).after(&Aff::mirror_x()) } else { Aff::rot_trans(*rot, [0., 0.]) };
+        let second_lin = match *mirror {
+            0 => Aff::rot_trans(*rot, [0., 0.]),
+            1 => Aff::rot_trans(*rot, [0., 0.]).after(&Aff::mirror_x()),
+            2 if *rot == 0. => Aff { m: [[0., 1.], [1., 0.]], t: [0., 0.] },
+            2 => Aff::rot_trans(*rot, [0., 0.]).after(&Aff { m: [[0., 1.], [1., 0.]], t: [0., 0.] }),
+            _ if *rot == 0. => Aff { m: [[0., -1.], [-1., 0.]], t: [0., 0.] },
+            _ => Aff::rot_trans(*rot, [0., 0.]).after(&Aff { m: [[0., -1.], [-1., 0.]], t: [0., 0.] }),
+        };
         // translations: Cartesian grid + aligned set
         let mut trans: Vec<P2> = vec![];
         for i in -grid_n..=grid_n {
@@ -812,7 +1053,65 @@ pub fn c12(tier: Tier) -> ! {
             run.fail(k, &w, c);
         }
     }
-    run.set("evaluations", evals);
+    // depth-2 histories: every ordered pair of shapes (A, B); on a fresh thread A answers a few
+    // placements, then B answers placements around its contact distance, judged by the oracle
+    let mut pair_jobs: Vec<(usize, usize)> = vec![];
+    for a in 0..shapes.len() {
+        for b in 0..shapes.len() {
+            if a != b {
+                pair_jobs.push((a, b));
+            }
+        }
+    }
+    let pair_res = par_map(&pair_jobs, |_, &(ia, ib)| {
+        let sa = to_test_shape(&shapes[ia].1);
+        let sb = to_test_shape(&shapes[ib].1);
+        let body = sb.body();
+        let r = body.enclosing_radius();
+        std::thread::scope(|sc| {
+            sc.spawn(|| {
+                let ra = sa.body().enclosing_radius();
+                for k in 0..4 {
+                    let _ = sa.intersects(&Aff::identity(), &Aff::rot_trans(0.4 * k as f64, [0.6 * ra * k as f64, 0.3 * ra]));
+                }
+                let mut n = 0u64;
+                let mut bad: Vec<(String, Value)> = vec![];
+                for k in 0..16 {
+                    let ang = 0.2 + k as f64 * PI / 8.;
+                    for &f in [0.4, 0.9, 1.3, 1.6, 1.8, 1.95, 2.05].iter() {
+                        for &rot in [0., 0.7, PI].iter() {
+                            let b_aff = Aff::rot_trans(rot, [f * r * ang.cos(), f * r * ang.sin()]);
+                            let d = depth(&body, &body.transformed(&b_aff));
+                            if d.abs() <= BAND {
+                                continue;
+                            }
+                            n += 1;
+                            let ans = sb.intersects(&Aff::identity(), &b_aff);
+                            if ans != (d > 0.) && bad.len() < 2 {
+                                bad.push((
+                                    format!("{} right after {} answered on the same thread: copies {} by {:e} but intersects() says {}", shapes[ib].0, shapes[ia].0, if d > 0. { "overlap" } else { "are separated" }, d.abs(), if ans { "yes" } else { "no" }),
+                                    json!({"engine": "shape-pair", "first": shapes[ia].0, "second": shapes[ib].0, "rotation": rot, "translation": [b_aff.t[0], b_aff.t[1]], "oracle_depth": d}),
+                                ));
+                            }
+                        }
+                    }
+                }
+                (n, bad)
+            })
+            .join()
+            .unwrap_or_else(|_| machinery_error("a pair evaluation panicked"))
+        })
+    });
+    let mut pair_evals = 0u64;
+    for (n, bad) in pair_res {
+        pair_evals += n;
+        for (w, c) in bad {
+            run.fail(None, &w, c);
+        }
+    }
+    run.set("ordered_shape_pairs_answered_on_one_thread", pair_jobs.len() as u64);
+    run.set("placements_judged_after_another_shape", pair_evals);
+    run.set("evaluations", evals + pair_evals);
     run.set("distinct_nontrivial", over + sep);
     run.set("placements_overlapping", over);
     run.set("placements_separated", sep);
@@ -1008,6 +1307,32 @@ pub fn c02(tier: Tier) -> ! {
         }
     }
     run.set("raster_cross_checks", raster_checks);
+    // depth-2 histories: every ordered pair of shapes, the second one's dilute p1 and p2 states
+    // scored on a thread that has just scored the first one's; also judged by the oracle area
+    let mut hist_docs: Vec<Value> = vec![];
+    let mut hist_meta: Vec<(String, f64)> = vec![];
+    for (si, spec) in shapes.iter().enumerate() {
+        let body = spec.body();
+        let g = if si % 2 == 0 { "p1" } else { "p2" };
+        let n = ita_ops(g).len() as f64;
+        let p = Params { length: n * (4. * body.enclosing_radius() + 1.), ratio: 1., angle: PI / 2., x: 0.25, y: 0.25, phi: 0.3 };
+        hist_docs.push(StateTemplate::new(g, &spec.json()).with(&p));
+        hist_meta.push((format!("{} {}", g, spec.label()), n * body.area() / p.lattice().area()));
+    }
+    let (hist_pairs, hist_bad) = ordered_pair_histories(&hist_docs);
+    for (k, m) in hist_bad.iter().enumerate() {
+        if k >= 4 {
+            break;
+        }
+        let known = trimer_formula_invalid(&shapes[m.second].body());
+        run.fail(
+            if known { Some("trimer-area-multiple-overlap") } else { None },
+            &format!("{}: scores {:?} on a thread of its own but {:?} right after {} was scored on the same thread (true fraction {})", hist_meta[m.second].0, m.alone, m.after, hist_meta[m.first].0, hist_meta[m.second].1),
+            json!({"engine": "document-pair", "first": hist_docs[m.first], "second": hist_docs[m.second]}),
+        );
+    }
+    run.set("ordered_shape_pairs_scored_on_one_thread", hist_pairs);
+    run.set("ordered_shape_pairs_with_a_different_score", hist_bad.len() as u64);
     // two states of the same shape are ranked by their real density (the order the CLI's max() uses)
     let mut order_checks = 0u64;
     for spec in [ShapeSpec::Polygon(4), ShapeSpec::Polygon(3), ShapeSpec::Circle, ShapeSpec::Trimer(0.637556, 120., 1.)].iter() {
